@@ -56,6 +56,13 @@ Definition c18_run (l : list Z) : list Z :=
            | inl (Some o) => 1 :: 1 :: enc_pkt (packet_of o)
            | inr (Some (k, on)) => 1 :: 1 :: enc_pkt (control_packet k on)
            | _ => [0; 0] end
+  (* glonaxctl sub-commands without an on/off word: 100 engine <rpm>, 101 engine-shutdown, 102 machine-shutdown *)
+  | 4 :: sub :: compat :: arg :: _ =>
+      if negb (compat =? 0) then [0; 0]
+      else if sub =? 100 then (if (0 <=? arg) && (arg <? 65536) then 1 :: 1 :: enc_pkt (PEngine 0 0 arg engine_state_Request) else [0; 0])
+      else if sub =? 101 then 1 :: 1 :: enc_pkt (PEngine 0 0 0 engine_state_NoRequest)
+      else if sub =? 102 then 1 :: 1 :: enc_pkt (PControl control_type_machine_shutdown true)
+      else [0; 0]
   | 3 :: m :: full :: failsafe :: evs =>
       match run_events (mode_of m) (start_state (b full)) evs (length evs) with
       | Some outs => (if b failsafe then session_mode_failsafe else 0) :: Z.of_nat (length outs) :: flat_map (fun o => enc_pkt (packet_of o)) outs
@@ -107,6 +114,17 @@ Definition c18_check (l o : list Z) : bool :=
         let expect := if sub =? 0 then enc_pkt (PMotion (if t then StopAll else ResumeAll)) else enc_pkt (PControl sub t) in
         if list_eq_dec Z.eq_dec o (1 :: 1 :: expect) then true else false
       else match o with _ :: 0 :: [] => true | _ => false end
+  | 4 :: sub :: compat :: arg :: _ =>
+      (* exactly the corresponding object: the engine request carries the speed as typed (any u16), nothing else is sent *)
+      let expect :=
+        if negb (compat =? 0) then None
+        else if sub =? 100 then (if (0 <=? arg) && (arg <? 65536) then Some ([type_engine; 5; 0; 0] ++ be16 arg ++ [16]) else None)
+        else if sub =? 101 then Some [type_engine; 5; 0; 0; 0; 0; 0]
+        else if sub =? 102 then Some [type_control; 2; control_type_machine_shutdown; 1]
+        else None in
+      (match expect with
+       | Some e => if list_eq_dec Z.eq_dec o (1 :: 1 :: e) then true else false
+       | None => match o with _ :: 0 :: [] => true | _ => false end end)
   | 3 :: m :: full :: failsafe :: evs =>
       (* failsafe session unless told otherwise; only Motion / Engine frames; locked at start-up *)
       match o with
